@@ -1327,6 +1327,13 @@ class virtualQubit(pb.Referenceable):
         yield self._single_gate("apply_K")
 
     @inlineCallbacks
+    def remote_apply_S(self):
+        """
+        Apply S (phase) gate.
+        """
+        yield self._single_gate("apply_S")
+
+    @inlineCallbacks
     def remote_apply_T(self):
         """
         Apply T gate.
